@@ -566,6 +566,21 @@ impl<'a> Run<'a> {
             );
         }
 
+        // ---- C05 seen through match_order: whatever the visiting order, a match executes
+        // min(requested, everything the resting orders can ever display under the rule)
+        let matchable: u128 = before_list.iter().map(|o| model::matchable(o) as u128).sum();
+        if executed != (qty as u128).min(matchable) {
+            self.viol(
+                "C05",
+                "match-total",
+                at,
+                format!(
+                    "match({qty}) executed {executed}, but by the per-order rules the resting orders can trade {matchable} in total (displayed + replenishable): {}",
+                    before_list.iter().map(|o| o.brief()).collect::<Vec<_>>().join(" | ")
+                ),
+            );
+        }
+
         // ---- per-visit tracking (C05 through match_order, C04), zero-free mode only
         if !self.h.knobs.zero {
             let mut cur = before.clone();
@@ -1176,22 +1191,35 @@ pub fn check_match_against(lib: &Order, q: u64) -> Option<String> {
     }
 }
 
-fn lie_u64(lie: u8, v: u64) -> u64 {
+/// Aggregate corruption ("lying aggregates"): 1 all zero, 2 all +1, 3 all MAX,
+/// 4 only visible, 5 only hidden, 6 only the count.
+fn lie_vis(lie: u8, v: u64) -> u64 {
     match lie {
         1 => 0,
         2 => v.wrapping_add(1),
         3 => u64::MAX,
+        4 => v.wrapping_add(1000),
         _ => v,
     }
 }
-fn lie_usize(lie: u8, v: usize) -> usize {
+fn lie_hid(lie: u8, v: u64) -> u64 {
     match lie {
         1 => 0,
         2 => v.wrapping_add(1),
-        3 => usize::MAX,
+        3 => u64::MAX,
+        5 => v.wrapping_add(7),
         _ => v,
     }
 }
+fn lie_cnt(lie: u8, v: u64) -> u64 {
+    match lie {
+        1 => 0,
+        2 | 6 => v.wrapping_add(1),
+        3 => u64::MAX,
+        _ => v,
+    }
+}
+pub const N_LIES: u8 = 6;
 
 /// Replace the number following `key=` (text form) by `f(number)`.
 fn edit_text_number(s: &str, key: &str, f: impl Fn(u64) -> u64) -> String {
@@ -1214,9 +1242,9 @@ pub fn rebuild(lvl: &PriceLevel, path: u8, lie: u8) -> Result<PriceLevel, String
     match path {
         0 | 1 => {
             let mut s: PriceLevelSnapshot = lvl.snapshot();
-            s.visible_quantity = lie_u64(lie, s.visible_quantity);
-            s.hidden_quantity = lie_u64(lie, s.hidden_quantity);
-            s.order_count = lie_usize(lie, s.order_count);
+            s.visible_quantity = lie_vis(lie, s.visible_quantity);
+            s.hidden_quantity = lie_hid(lie, s.hidden_quantity);
+            s.order_count = lie_cnt(lie, s.order_count as u64) as usize;
             if path == 0 {
                 PriceLevel::from_snapshot(s).map_err(|e| e.to_string())
             } else {
@@ -1228,9 +1256,9 @@ pub fn rebuild(lvl: &PriceLevel, path: u8, lie: u8) -> Result<PriceLevel, String
                 lvl.snapshot_package().map_err(|e| e.to_string())?
             } else {
                 let mut s: PriceLevelSnapshot = lvl.snapshot();
-                s.visible_quantity = lie_u64(lie, s.visible_quantity);
-                s.hidden_quantity = lie_u64(lie, s.hidden_quantity);
-                s.order_count = lie_usize(lie, s.order_count);
+                s.visible_quantity = lie_vis(lie, s.visible_quantity);
+                s.hidden_quantity = lie_hid(lie, s.hidden_quantity);
+                s.order_count = lie_cnt(lie, s.order_count as u64) as usize;
                 let p = PriceLevelSnapshotPackage::new(s).map_err(|e| e.to_string())?;
                 p.validate()
                     .map_err(|e| format!("package built from a snapshot does not validate: {e}"))?;
@@ -1258,14 +1286,14 @@ pub fn rebuild(lvl: &PriceLevel, path: u8, lie: u8) -> Result<PriceLevel, String
                 let mut v: serde_json::Value =
                     serde_json::from_str(&j).map_err(|e| e.to_string())?;
                 if let Some(m) = v.as_object_mut() {
-                    for k in ["visible_quantity", "hidden_quantity"] {
-                        let cur = m.get(k).and_then(|x| x.as_u64()).unwrap_or(0);
-                        m.insert(k.into(), serde_json::Value::from(lie_u64(lie, cur)));
-                    }
+                    let cur = m.get("visible_quantity").and_then(|x| x.as_u64()).unwrap_or(0);
+                    m.insert("visible_quantity".into(), serde_json::Value::from(lie_vis(lie, cur)));
+                    let cur = m.get("hidden_quantity").and_then(|x| x.as_u64()).unwrap_or(0);
+                    m.insert("hidden_quantity".into(), serde_json::Value::from(lie_hid(lie, cur)));
                     let cur = m.get("order_count").and_then(|x| x.as_u64()).unwrap_or(0);
                     m.insert(
                         "order_count".into(),
-                        serde_json::Value::from(lie_u64(lie, cur)),
+                        serde_json::Value::from(lie_cnt(lie, cur)),
                     );
                 }
                 v.to_string()
@@ -1277,17 +1305,17 @@ pub fn rebuild(lvl: &PriceLevel, path: u8, lie: u8) -> Result<PriceLevel, String
             let t = if lie == 0 {
                 t
             } else {
-                let t = edit_text_number(&t, "visible_quantity", |v| lie_u64(lie, v));
-                let t = edit_text_number(&t, "hidden_quantity", |v| lie_u64(lie, v));
-                edit_text_number(&t, "order_count", |v| lie_u64(lie, v))
+                let t = edit_text_number(&t, "visible_quantity", |v| lie_vis(lie, v));
+                let t = edit_text_number(&t, "hidden_quantity", |v| lie_hid(lie, v));
+                edit_text_number(&t, "order_count", |v| lie_cnt(lie, v))
             };
             PriceLevel::from_str(&t).map_err(|e| e.to_string())
         }
         _ => {
             let mut d = PriceLevelData::from(lvl);
-            d.visible_quantity = lie_u64(lie, d.visible_quantity);
-            d.hidden_quantity = lie_u64(lie, d.hidden_quantity);
-            d.order_count = lie_usize(lie, d.order_count);
+            d.visible_quantity = lie_vis(lie, d.visible_quantity);
+            d.hidden_quantity = lie_hid(lie, d.hidden_quantity);
+            d.order_count = lie_cnt(lie, d.order_count as u64) as usize;
             PriceLevel::try_from(d).map_err(|e| e.to_string())
         }
     }
